@@ -113,7 +113,12 @@ def resolve_arg(spec, regs):
         r = spec["reg"]
         if r not in regs:
             raise Missing(r)
-        return regs[r]
+        o = regs[r]
+        if "idx" in spec:
+            if not isinstance(o, (tuple, list)) or len(o) <= spec["idx"]:
+                raise Missing("%s[%d]" % (r, spec["idx"]))
+            o = o[spec["idx"]]
+        return o
     if "const" in spec:
         return resolve_const(spec)
     if "list" in spec:
